@@ -408,6 +408,16 @@ struct VmWorld : HookSink {
         else ctx.stats.inc("c01_inconclusive_budget");
       }
     }
+    // C19 against the source: memory is bounded by the deepest call chain.  The source-level run, once complete, knows the
+    // deepest chain of the whole execution; no prefix of the VM's run may hold more activations than that
+    if (have_ref && !ref.out_of_range && ref.finished) {
+      int peak = 0; size_t at = 0;
+      for (size_t i = 0; i < G.depth.size(); i++) if (G.depth[i] > peak) { peak = G.depth[i]; at = i; }
+      if (peak > ref.max_depth)
+        ctx.check(false, "C19", "memory_bounded_by_call_depth", "after " + std::to_string(at) + " instructions the VM holds " + std::to_string(peak) + " activations; the deepest call chain of the source-level run is " + std::to_string(ref.max_depth));
+      ctx.stats.inc("c19_depth_compared_with_source");
+      if (G.finished && peak < ref.max_depth) ctx.stats.inc("c19_peak_below_source_depth");
+    }
     // C16 bounded liveness: LOOP-only programs halt
     if (have_ref && !uses_while_goto(proj.ast) && !G.unsafe) {
       if (ref.finished) {
@@ -800,6 +810,16 @@ struct VmWorld : HookSink {
     locations = avail;
     locations.push_back({"nofile.theo", 1});
     locations.push_back({proj.main, 100000});
+    if (knob("alias_locs", 0) && !avail.empty()) {
+      // names that are not the compiled file's name but resemble it: not available, and must stay without effect
+      locations.push_back({"ws/" + avail[0].file, avail[0].line});
+      locations.push_back({"C:\\p\\" + avail.back().file, avail.back().line});
+      locations.push_back({avail[avail.size() / 2].file.substr(0, avail[avail.size() / 2].file.size() - 1), avail[avail.size() / 2].line});
+      std::vector<Loc> keep;
+      for (size_t i = avail.size(); i < locations.size(); i++) if (!std::binary_search(avail.begin(), avail.end(), locations[i])) keep.push_back(locations[i]);
+      locations.resize(avail.size());
+      for (auto &l : keep) locations.push_back(l);
+    }
     c07_applicable = have_ref && proj.canonical && proj.ast.macros == 0;
     set_phase(PH_LOAD);
     check_tables();
@@ -881,9 +901,11 @@ Plan gen_vm_plan(const std::string &prop, Rng &rng, long long sub, const std::st
   gp.macros = macros;
   Layout lay;
   lay.seed = rng.next();
+  gp.loop_back_head = (lay.seed >> 13) % 3 == 0 ? 30 : 0;
   lay.style = rng.chance(2, 5) ? 0 : (rng.chance(2, 3) ? 1 : 2);
   lay.nfiles = rng.chance(1, 2) ? 1 : (int)rng.range(2, thorough ? 5 : 3);
   lay.spelling = (int)rng.below(4);
+  lay.naming = (lay.seed >> 9) % 4 == 0 ? 1 : 0;   // a quarter of the projects: file names that are prefixes of one another
   int max_ops = thorough ? 200 : 60;
   int nops = rng.chance(1, 3) ? (int)rng.range(1, 5) : (int)rng.range(1, max_ops);
   bool allow_reset = true, heavy = false;
@@ -948,7 +970,7 @@ Plan gen_vm_plan(const std::string &prop, Rng &rng, long long sub, const std::st
     // call-graph faults on the source
     int nf = (int)rng.range(1, 2);
     for (int f = 0; f < nf; f++) {
-      int kind = (int)rng.below(4);
+      int kind = (int)rng.below(5);
       std::vector<Val *> calls;
       std::function<void(Val &)> cv = [&](Val &v) { if (v.k == Val::CALL) calls.push_back(&v); for (auto &a : v.args) cv(a); };
       std::function<void(std::vector<Stmt> &)> cb = [&](std::vector<Stmt> &b) { for (auto &s : b) { cv(s.val); cb(s.body); cb(s.body2); } };
@@ -967,6 +989,14 @@ Plan gen_vm_plan(const std::string &prop, Rng &rng, long long sub, const std::st
       } else if (kind == 2 && ast.defs.size() >= 2) {  // swap two definitions
         size_t i = rng.below(ast.defs.size()), j = rng.below(ast.defs.size());
         std::swap(ast.defs[i], ast.defs[j]);
+      } else if (kind == 4) {  // a call to a name that is no program: unknown, or one of the names the built-in x + c / x - c sugar uses, in another shape
+        static const char *NAMES[] = {"__INC__", "__DEC__", "nosuch", "__INC__", "__DEC__", "x0"};
+        Stmt s; s.k = Stmt::ASSIGN; s.var = "x0"; s.val.k = Val::CALL; s.val.callee = NAMES[rng.below(6)];
+        static const int NARGS[] = {0, 0, 1, 3};
+        int na = NARGS[rng.below(4)];
+        for (int k = 0; k < na; k++) { Val a; a.k = rng.chance(1, 2) ? Val::CONST : Val::VAR; a.c = 1; a.var = "x1"; s.val.args.push_back(a); }
+        std::vector<Stmt> &b = rng.chance(1, 2) ? ast.main : ast.defs[rng.below(ast.defs.size())].body;
+        b.insert(b.begin() + rng.below(b.size() + 1), s);
       } else {  // rename a callee to something else defined (or not)
         for (auto &r : ast.defs) cb(r.body);
         cb(ast.main);
@@ -983,6 +1013,7 @@ Plan gen_vm_plan(const std::string &prop, Rng &rng, long long sub, const std::st
   p.proj.has_ast = true;
   p.proj.ast = ast;
   p.proj.layout = lay;
+  p.knobs["alias_locs"] = 1;
   render(p.proj);
 
   if (mode == "to_end") {
